@@ -240,6 +240,19 @@ func (e *Engine) resolveContract(c *Contract) (string, bool, error) {
 			}
 		}
 		if !found {
+			// renamed since the contract was written? (same position in the baselined signature)
+			if bs := baseSigFor(pk, parent.Obj); bs != nil {
+				for j := 0; j < sig.Params().Len(); j++ {
+					if 1+j < len(bs) && bs[1+j] == pname {
+						if _, ok := sig.Params().At(j).Type().Underlying().(*types.Signature); ok {
+							found = true
+							c.FuncT = sig.Params().At(j).Type()
+						}
+					}
+				}
+			}
+		}
+		if !found {
 			return "", false, fmt.Errorf("function %s has no function-typed parameter %s", fname, pname)
 		}
 		c.Trusted = true
